@@ -21,6 +21,7 @@ LEVEL_TEXT += (' (E5.key) no map or set keyed by String/&str (a cache keyed by t
 
 
 LEVEL_TEXT += (" (E5) Graph.syntax_nodes, from which the ancestor walk starts, is written only by add_syntax_node's entry().or_insert; the forcing window may open inside the callee that marks the cell.")
+LEVEL_TEXT += (' The forced map of scoped definitions is filled by HashMap::insert only (whose result is the duplicate test); (E6.v) no code but the evaluator looks inside a deferred scope value.')
 def _good_key(a):
     return (a[0] == "place" and a[2] and a[2][-1][0] == "field" and a[2][-1][3] == "index" and a[2][-1][1] == "tsg::graph::SyntaxNodeRef") or \
            (a[0] == "call" and re.search(r"tree_sitter::Node::<'tree>::id$", a[1] or "") is not None)
@@ -340,6 +341,10 @@ def run(prog, rep):
     rep.rule("E5", "Graph.syntax_nodes (id → tree-sitter node, where the ancestor walk starts) is written only by add_syntax_node's entry().or_insert")
     nw = e5w.check_writers(prog, rep, "E5", "tsg::graph::Graph", "syntax_nodes", {("add_syntax_node", "entry")}, "syntax nodes are insert-only")
     rep.floor("E5", nw, 1, "writers of Graph.syntax_nodes")
+    # a definition's scope is looked at only by the evaluator: no shortcut decides at definition time which node a scope denotes
+    from ..engines import e2_errflow as e2x
+    nv = e2x.lazy_value_encapsulated(prog, rep)
+    rep.floor("E6.v", nv, 2, "readers of LazyValue's variant")
     rep.rule("C04.W", "own entry first; ancestor walk gated by `inherit`, parent-stepping, by-name lookup, first hit wins; strict = lazy")
     fs = {}
     s = [f for f in prog.find(self_ty="tsg::ast::ScopedVariable", name="get") if "strict" in f.id]
@@ -412,6 +417,11 @@ def run(prog, rep):
                             re.match(r"^Option::(is_none|is_some)\(&HashMap::insert\(", cc) is not None     # `if values.insert(..).is_none() { continue }`
                         if not structural:
                             extra.append("%s = %s" % (cc[:100], g.value if g.value is not None else g.variant))
+        # the forced map is filled by `insert` alone (whose result is the duplicate test): nothing is merged in wholesale
+        others = [callee_fn(t)["def"].rsplit("::", 1)[-1] + " at " + sp_str(t["sp"]) for b, t in body.calls()
+                  if is_callee(t, r"HashMap::<K, V, S, A>::(extend|entry|remove|remove_entry|clear|retain|drain|get_mut|try_insert)$", r"iter::Extend::extend$", r"Extend<.*>>::extend$")]
+        rep.check(not others, "C04.D", "%s :: filled by insert only" % f.id, f.loc(), "the forced map is written by HashMap::insert only",
+                  "the map of forced definitions is also written by %s: definitions merged in this way bypass the duplicate test (a second definition on a node is silently dropped or wins)" % ", ".join(others[:3]))
         rep.check(not extra, "C04.D", "%s :: duplicate is unconditional" % f.id, f.loc(), "no further condition decides whether a second definition is reported",
                   "a second definition on the same node is reported only under an extra condition (%s): otherwise the later value silently wins" % "; ".join(extra[:2]))
     for fid, variant in (("strict::<impl tsg::ast::ScopedVariable>::get", "UndefinedVariable"), ("LazyScopedVariables::evaluate", "UndefinedScopedVariable")):
